@@ -256,6 +256,25 @@ fn check_level(spec: &CmdSpec, obs: &LevelObs, has_sub: bool, ctx: &mut Ctx) -> 
                     return v;
                 }
             }
+            // "required through requires" is transitive over unconditional edges (the library's required graph,
+            // unroll_arg_requires): what a required argument requires is required as well, whether or not the
+            // intermediate argument is itself present or excused
+            let mut seen: Vec<&str> = vec![a.id.as_str()];
+            let mut stack: Vec<&str> = a.requires.iter().map(|s| s.as_str()).collect();
+            while let Some(mid) = stack.pop() {
+                if seen.contains(&mid) {
+                    continue;
+                }
+                seen.push(mid);
+                if let Some(ma) = lv.arg(mid) {
+                    for t in &ma.requires {
+                        if let Some(v) = demand(t, format!("{:?} requires {:?}, which requires it", a.id, mid), &lv) {
+                            return v;
+                        }
+                        stack.push(t.as_str());
+                    }
+                }
+            }
             for (p, t) in &a.requires_ifs {
                 if lv.pred_holds(&a.id, p) {
                     if let Some(v) = demand(t, format!("{:?} requires_if {:?}", a.id, p), &lv) {
